@@ -68,12 +68,22 @@ theorem readLE_layout (val : String → Nat) (name : String) : ∀ (L : List (St
 /-! ## block counts, remainders and the clipped work-group sizes -/
 
 theorem wgCount_fit' (g w : Nat) (h : g + w ≤ 4294967296) : C02.wgCount g w = nwgI g w := by
-  unfold C02.wgCount nwgI C02.M32
-  by_cases h0 : g + w = 0
-  · have : g = 0 := by omega
-    have : w = 0 := by omega
-    subst_vars; rfl
-  · rw [Nat.mod_eq_of_lt (by omega)]
+  have h1 : g + w - 1 < 18446744073709551616 := by omega
+  have h2 : (g + w - 1) / w < 4294967296 := Nat.lt_of_le_of_lt (Nat.div_le_self _ _) (by omega)
+  unfold C02.wgCount nwgI C02.M64 C02.M32
+  rw [Nat.mod_eq_of_lt h1, Nat.mod_eq_of_lt h2]
+
+/-- the repaired block count is the true count for every typed launch (`uint32` global size, `uint16`
+    local size ≥ 1) -/
+theorem wgCount_typed' (g w : Nat) (hg : g < 4294967296) (hw1 : 1 ≤ w) (hw : w < 65536) :
+    C02.wgCount g w = nwgI g w := by
+  have h1 : g ≤ g * w := Nat.le_mul_of_pos_right g hw1
+  have h2 : (g + 1) * w = g * w + w := by rw [Nat.add_mul, Nat.one_mul]
+  have h3 : (g + w - 1) / w < g + 1 := (Nat.div_lt_iff_lt_mul hw1).mpr (by rw [h2]; omega)
+  have h4 : g + w - 1 < 18446744073709551616 := by omega
+  have h5 : (g + w - 1) / w < 4294967296 := by omega
+  unfold C02.wgCount nwgI C02.M64 C02.M32
+  rw [Nat.mod_eq_of_lt h4, Nat.mod_eq_of_lt h5]
 
 /-- the clipped size of work-group `i` along an axis, from count, size and remainder -/
 theorem clip_eq_hiddenSize (G W i : Nat) (hG : 1 ≤ G) (hW : 1 ≤ W) (hi : i < nwg G W) :
